@@ -17,7 +17,7 @@ and compared through the CRC-32 of the bytes the application read):
   dcstream:wrong-data-instead-of-error   vanished peer / unknown path secret: clean EOF on a truncated response
   dcstream:spurious-error      both applications behaved and the network became clean, but a side saw an error
                                or the transfer is incomplete
-  dcstream:panic               the scenario panicked (debug assertions of the repo are enabled)
+  dcstream:panic:<msg>@<file>  the scenario panicked (debug assertions and overflow checks of the repo are enabled)
   dcstream:bad-op              the harness refused the line (e.g. the scaffolding's idle timeout is not the
                                one the oracle bounds with)
 """
@@ -52,18 +52,18 @@ def payload(key, n):
 
 
 def line(seed, proto="udp", req=1000, resp=2000, wchunk=65536, rchunk=65536, mtu=1500, smtu=None, drop=0, dup=0,
-         reorder=0, faults_ms=0, vanish_ms=0, cop="normal", sop="normal", deadline_ms=120000):
+         reorder=0, faults_ms=0, vanish_us=0, cop="normal", sop="normal", deadline_ms=120000):
     s = f"run seed={seed} proto={proto} req={req} resp={resp} wchunk={wchunk} rchunk={rchunk} mtu={mtu}"
     if smtu is not None:
         s += f" smtu={smtu}"
     s += f" drop_pm={drop} dup_pm={dup} reorder_pm={reorder} faults_until_ms={faults_ms}"
-    if vanish_ms:
-        s += f" vanish_ms={vanish_ms}"
+    if vanish_us:
+        s += f" vanish_us={vanish_us}"
     s += f" client_op={cop} server_op={sop} idle_ms={IDLE_MS} deadline_ms={deadline_ms}"
     return s
 
 
-MTUS = [1250, 1500, 9000, 32000]
+MTUS = [1250, 1500, 9000, 16383, 32000]
 SIZES_SMALL = [1, 2, 7, 100, 1199, 1200, 1473, 4096, 14720, 14721]
 SIZES_MED = [20000, 65535, 65536, 100000, 262144]
 SIZES_BIG = [500000, 1 << 20]
@@ -92,9 +92,9 @@ FIXED = [
     # failure modes
     line(14, req=1000, resp=1000, sop="forget_secret"),
     line(15, req=1 << 20, resp=1000, sop="forget_secret", mtu=9000),
-    line(16, req=100000, resp=100000, sop="vanish", vanish_ms=5),
-    line(17, req=1000, resp=1 << 20, sop="vanish", vanish_ms=40, cop="concurrent"),
-    line(18, req=1000, resp=1000, sop="vanish", vanish_ms=1),
+    line(16, req=100000, resp=100000, sop="vanish", vanish_us=2500),
+    line(17, req=1000, resp=1 << 20, sop="vanish", vanish_us=4000, cop="concurrent"),
+    line(18, req=1000, resp=1000, sop="vanish", vanish_us=300),
     # TCP
     line(19, proto="tcp", req=100000, resp=100000),
     line(20, proto="tcp", req=1, resp=1 << 20, wchunk=1000, rchunk=100, mtu=1250),
@@ -145,7 +145,7 @@ def _random(rng, tier):
         kw["reorder"] = rng.choice([0, 50, 200, 500])
         kw["faults_ms"] = rng.choice([5, 50, 500, 2000, 5000])
     if sop == "vanish":
-        kw["vanish_ms"] = rng.choice([1, 2, 5, 20, 100, 1000])
+        kw["vanish_us"] = rng.choice([100, 300, 700, 1200, 2500, 4000, 10000])
     return line(seed, **kw)
 
 
@@ -157,6 +157,14 @@ def gen(rng, n, tier):
         # one real-time TCP stall: the peer application freezes while holding the stream
         ops.append(line(rng.getrandbits(32), proto="tcp", req=1000, resp=1000, sop="vanish", deadline_ms=45000))
     return ops[:max(n, len(FIXED))] if tier != "thorough" else ops
+
+
+def _panic_sig(text):
+    """`<msg>@<file>:<line>` -> stable signature without the line number"""
+    text = text.strip()
+    msg, _, loc = text.partition("@")
+    f = loc.rsplit(":", 1)[0] if loc else "?"
+    return f"dcstream:panic:{msg[:60]}@{f}"
 
 
 def parse_op(op):
@@ -193,7 +201,7 @@ def oracle(ops, outs):
     bad = []
     for i, (op, out) in enumerate(zip(ops, outs)):
         if out.startswith("panic"):
-            bad.append((i, "dcstream:panic", f"scenario panicked: {out[:200]}"))
+            bad.append((i, _panic_sig(out[6:]), f"scenario panicked: {out[:200]}"))
             continue
         if out.startswith("bad-op"):
             bad.append((i, "dcstream:bad-op", "harness refused the scenario (idle timeout of the scaffolding changed?)"))
@@ -209,13 +217,15 @@ def oracle(ops, outs):
         planned_req = req // 2 if cop in ("shutdown_early", "drop_early") else req
         _dir_checks(i, "c2s", o["c2s"], key_c2s(seed), planned_req, bad)
         _dir_checks(i, "s2c", o["s2c"], key_s2c(seed), resp, bad)
+        if o.get("panic", "-") != "-":
+            bad.append((i, _panic_sig("background@" + o["panic"]), f"a background task panicked at {o['panic']}"))
         if o["end"] != "done":
             bad.append((i, "dcstream:hang", f"no result before the deadline of {p['deadline_ms']} ms (cerr={o['cerr']} serr={o['serr']})"))
             continue
         faulty_peer = sop in ("vanish", "forget_secret")
         if faulty_peer:
             idle = int(p["idle_ms"])
-            t0 = int(p.get("vanish_ms", 0))
+            t0 = (int(p.get("vanish_us", 0)) + 999) // 1000
             for side in ("tc", "ts"):
                 if o[side] != "-" and int(o[side]) > t0 + idle + SLACK_MS:
                     bad.append((i, "dcstream:error-late", f"{side}={o[side]} ms > {t0} + idle {idle} + slack {SLACK_MS} ms"))
